@@ -52,10 +52,13 @@ if not confirm:
     except Exception:
         pass
 meta["confirmed"] = confirm
-# run our checks
-rc, o = sh("git -C /repo status --porcelain")
+# run our checks (SEEDED_REPO: a scratch `git worktree` of /repo at HEAD instead of /repo itself, so that /repo stays usable meanwhile)
+TARGET = os.environ.get("SEEDED_REPO", "/repo")
+if TARGET != "/repo":
+    sh("git -C %s checkout -q -- . && git -C %s checkout -q --detach main" % (TARGET, TARGET))
+rc, o = sh("git -C %s status --porcelain" % TARGET)
 assert o.strip() == "", "repo not clean: " + o
-rc, o = sh("git -C /repo apply %s" % patch)
+rc, o = sh("git -C %s apply %s" % (TARGET, patch))
 results = {}
 if rc != 0:
     print("does not apply to /repo:", o)
@@ -63,12 +66,12 @@ else:
     try:
         for c in checks:
             t0 = time.time()
-            rc, o = sh("./check %s --tier quick" % c, cwd=VERIF, timeout=3600)
+            rc, o = sh("VERIF_REPO=%s ./check %s --tier quick" % (TARGET, c), cwd=VERIF, timeout=3600)
             viol = [l for l in o.splitlines() if l.startswith("VIOLATION")]
             results[c] = {"exit": rc, "violations": [v[:300] for v in viol[:6]], "wall_s": round(time.time() - t0, 1)}
             print(c, "exit", rc, "violations", len(viol), [v.split("key=")[1].split()[0] for v in viol[:5] if "key=" in v])
     finally:
-        sh("git -C /repo checkout -- .")
+        sh("git -C %s checkout -- ." % TARGET)
 meta["our_checks_quick"] = results
 meta["caught_by"] = [c for c, r in results.items() if r["exit"] == 1]
 d = os.path.join(VERIF, "seeded", sid)
